@@ -53,3 +53,29 @@ Example C05_nushell_example :
   nushell_emit (B [47]) (B [109;121;32;100;105;114;47]) = B [34;109;121;32;100;105;114;47;34] /\
   nushell_emit (B [61]) (B [109;121;32;100;105;114;47]) = B [34;109;121;32;100;105;114;47;34;32].
 Proof. split; vm_compute; reflexivity. Qed.
+
+(* ---------- the no-space set as a set of runes (Proofs/SuffixAlgebra.v) ----------
+   SuffixMatcher works on bytes (strings.Contains(sm.string, string(r))); that this is rune membership is the
+   self-synchronisation of UTF-8 (C05_contains_is_membership).  Add adds exactly the given runes, Merge is
+   union, `*` absorbs: a value is followed by no blank iff the set holds `*` or the value's last rune. *)
+From CV Require Import Base.Utf8 Proofs.Utf8 Proofs.SuffixAlgebra.
+
+Theorem C05_contains_is_membership : forall rs r, Forall scalar rs -> scalar r ->
+  (contains (encode_runes rs) (encode_rune r) = true <-> In r rs).
+Proof. exact contains_rune. Qed.
+Print Assumptions C05_contains_is_membership.
+
+Theorem C05_add_adds_exactly : forall rs cs, Forall scalar rs -> Forall scalar cs ->
+  exists rs', Forall scalar rs' /\ sm_add (encode_runes rs) cs = encode_runes rs' /\
+    forall v, sm_matches (sm_add (encode_runes rs) cs) v = sm_matches (encode_runes rs) v || existsb (hits v) cs.
+Proof. exact sm_add_spec. Qed.
+Print Assumptions C05_add_adds_exactly.
+
+Theorem C05_merge_is_union : forall rs1 rs2 v, Forall scalar rs1 -> Forall scalar rs2 ->
+  sm_matches (sm_merge (encode_runes rs1) (encode_runes rs2)) v = sm_matches (encode_runes rs1) v || sm_matches (encode_runes rs2) v.
+Proof. exact sm_merge_matches. Qed.
+Print Assumptions C05_merge_is_union.
+
+Theorem C05_hits : forall v r, hits v r = true <-> r = star \/ has_suffix v (encode_rune r) = true.
+Proof. exact hits_spec. Qed.
+Print Assumptions C05_hits.
